@@ -244,6 +244,19 @@ def ev(node, env):
             except ValueError as e:
                 raise Unsupported('conversion raises: %s' % e)
             raise Unsupported('conversion %s of %s' % (fn, [type(x).__name__ for x in a_]))
+    if isinstance(node, ast.Call) and isinstance(node.func, ast.Attribute) and node.func.attr == 'to_bytes':
+        v = ev(node.func.value, env)
+        a_ = [ev(x, env) for x in node.args]
+        kw_ = {k.arg: ev(k.value, env) for k in node.keywords}
+        if isinstance(v, int) and not isinstance(v, bool):
+            length = a_[0] if a_ else kw_.get('length')
+            bo = a_[1] if len(a_) > 1 else kw_.get('byteorder', 'big')
+            if isinstance(length, int) and 0 <= length <= 4096 and bo in ('big', 'little'):
+                try:
+                    return v.to_bytes(length, bo, signed=bool(kw_.get('signed', False)))
+                except OverflowError:
+                    raise Raised()       # the repository code would raise OverflowError here
+        raise Unsupported('to_bytes of %s' % type(v).__name__)
     if isinstance(node, ast.Subscript) and isinstance(node.slice, ast.Slice):
         b = ev(node.value, env)
         if isinstance(b, (list, tuple, bytes, bytearray, str)):
